@@ -214,10 +214,12 @@ def validate_trace(module, cfg, trace_path, env=None, timeout=900, dfs=False, he
 
 
 def rejected_info(r):
-    """Extract the REJECTED tuple printed by the trace spec's postcondition."""
-    m = re.search(r"<<\s*\"REJECTED\".*", r.out)
-    if m:
-        return m.group(0)[:1500]
+    """Extract the (possibly multi-line) REJECTED tuple printed by the trace spec's postcondition."""
+    i = r.out.find('"REJECTED"')
+    if i >= 0:
+        j = r.out.find("Error:", i)
+        txt = r.out[max(0, i - 3):(j if j > 0 else i + 3000)]
+        return re.sub(r"\s+", " ", txt)[:2500]
     return r.out[-1500:]
 
 
